@@ -5,7 +5,7 @@ import RawPanelVerif.Spec.SvgSpec
 
 What the harness observes on the real documents, said of the modelled `go-xmldom` round trip: `kept2` = the Spec's
 `keepsContent` of the base's token stream in the modelled printed token stream (appended elements included),
-`wellformed` = the Spec's `noDupAttrs` of it.  `kept` (tree against tree) and `tail` are `true`: the model appends to
+`keptMod` = the Spec's `keepsContentMod` of the same two streams, `wellformed` = the Spec's `noDupAttrs` of it.  `kept` (tree against tree) and `tail` are `true`: the model appends to
 the root and changes nothing else.
 -/
 namespace RawPanelVerif.Xmldom
@@ -15,7 +15,11 @@ open RawPanelVerif.Topo (Str SvgNode)
 def modelObserved (nodes : List SvgNode) (ts : List Tok) : Spec.Svg.Observed :=
   { kept := true,
     kept2 := Spec.SvgBase.keepsContent ts (printedToks (appToks nodes) ts),
+    keptMod := Spec.SvgBase.keepsContentMod ts (printedToks (appToks nodes) ts),
     wellformed := Spec.SvgBase.noDupAttrs (printedToks (appToks nodes) ts),
     tail := true }
+
+/-- the model is a function of its arguments and has no state: the map is read only, a second call gives the same -/
+def modelCall : Spec.Svg.CallObs := { args := true, again := true }
 
 end RawPanelVerif.Xmldom
